@@ -82,12 +82,12 @@ theorem hyps3B_of_hypsB (H : HypEnv) (frag : Nat) (hfr : frag ≤ 2) (q : Query)
 
 /-- A fold-free tree compiles to an IR without folds, hence without imports. -/
 theorem noImports_of_noFold {S : SchemaView} {q : Query} {ir : IRQuery} (h : toIR S q = .ok ir)
-    (hnf : noFold q.root = true) : noImportsC ir.rootComponent = true := by
+    (hnf : noFold q.root = true) : importsOKC [] ir.rootComponent = true := by
   obtain ⟨root, rootParams, acc, st1, comp, evs, st2, vars, _, _, hfill, hfin, _, _, _, rfl⟩ :=
     toIR_inv h
   obtain ⟨vs, ev, _, rfl, _⟩ := finishComponent_inv hfin
   obtain ⟨_, hfolds⟩ := (keys_fill S).1 _ _ _ _ _ _ _ hfill hnf
-  simp [noImportsC, hfolds, noImportsF]
+  simp [importsOKC, hfolds, importsOKF]
 
 /-- **Fragments F0–F2** as instances of the theorem with folds; the fold-count limits are
 irrelevant (any `lim`). -/
